@@ -82,6 +82,17 @@ namespace pf
     Out run_impl(const std::string &fmt, const Args &a);
     Out run_ref(const std::string &fmt, const Args &a);
 
+    // Re-entrant output callback: the engine is run with a callback that, after every `period`-th
+    // character it receives, runs a NESTED __printf (nested format number `kind`, see pfdispatch.hpp)
+    // into a sink of its own before it returns.  The result is the OUTER call's text and count;
+    // *nested_calls / *nested_bad report how many nested calls ran and the first nested call whose
+    // own text or count was wrong (empty = all right).
+    enum
+    {
+        NEST_KINDS = 4
+    };
+    Out run_impl_nested(const std::string &fmt, const Args &a, int period, int kind, size_t *nested_calls, std::string *nested_bad);
+
     inline std::string vis(const std::string &s)
     { // printable rendering for messages
         std::string r = "\"";
